@@ -528,7 +528,8 @@ SPEC = PropSpec(
                  "with raw != calibrated; Condition for every spelling x operand kind pairs incl. int-vs-float x all "
                  "four selector combinations; BooleanExpression truth tables for every AND/OR tree up to the size "
                  "bound (all assignments); DiscreteLookup incl. falsy lookup values. Results must be the bool "
-                 "objects True/False. Does not decide literal coercion for bytes values."),
+                 "objects True/False. Does not decide literal coercion for bytes values."
+                 ' R6.xml: criteria as declared in a document keep their literal exactly as written (blank padding, TRUE/False labels); R6.e2: the second end-to-end document of C01, also with DEBUG logging switched on.'),
     rule_doc=("R6.1 one obligation per spelling; R6.cmp per (value kind, spelling) over all (value, literal, selector) "
               "combinations; R6.cond per (kind pair, spelling); R6.bool per tree shape over all assignments; "
               "R6.lookup; R6.2 per evaluator."),
